@@ -20,7 +20,7 @@ for d in sorted(glob.glob(os.path.join(V, "seeded", "C*_m*"))):
             break
     m["caught_by"] = obs[:4]
     json.dump(m, open(os.path.join(d, "meta.json"), "w"), indent=1)
-    det = {1: "caught (quick)", 0: "MISSED in quick", 2: "undecided", 3: "checker defect"}.get(m.get("check_quick_exit_on_mutated_tree"), "?")
+    det = m.get("status") or {1: "caught (quick)", 0: "MISSED in quick", 2: "undecided", 3: "checker defect", 124: "check did not finish in 900 s"}.get(m.get("check_quick_exit_on_mutated_tree"), "?")
     rows.append(f"| {m['property']}/{m['mutant']} | {first.replace('|', '/')} | demo clean={m['demo_exit_clean_tree']} mutant={m['demo_exit_mutated_tree']}; tests: {m['existing_tests_on_mutated_tree'][:40]} | {det} | {'; '.join(o.split('/', 1)[1] if '/' in o else o for o in obs[:2])[:150]} |")
 table = ("## 11. Seeded changes and which check catches them\n\n"
          "Produced by independent sub-agents that saw only the property text and a scratch worktree (nothing from /verif); each was then\n"
